@@ -19,7 +19,7 @@ PROPS = {
  "C14": dict(needs=REFINE + ["Files", "FilesProofs", "FilesTotal", "LinkNames", "RunG", "IOSpec", "FileIO"], gen=["GenIO"], slices=[("slices_world", "c14_histories"), ("slices_world", "c14_total_histories"), ("slices_world", "c14_in_model"), ("slices_world", "c14_faults")]),
  "C15": dict(needs=REFINE + ["ImpSearch", "ImportProofs", "ImpLoad", "ModFS", "ModFSProofs", "RunG", "ImportMain", "ImportDisk", "Pure"], gen=[], slices=[("slices_world", "c15_search"), ("slices_world", "c15_semantics"), ("slices_world", "c15_in_model")]),
  "C06": dict(needs=CORE + ["Float", "Eq", "Complex", "HeapFacts", "Refine1", "Refine2", "RunG", "Order", "EqLink", "DictLink"], gen=[], slices=[("slices_values", "c06_eq")]),
- "C12": dict(needs=REFINE + ["SeqProofs", "SliceReal", "RunG", "SeqSpec", "SeqLink"], gen=[], slices=[("slices_values", "c12_seq")]),
+ "C12": dict(needs=REFINE + ["SeqProofs", "SliceReal", "SliceContig", "RunG", "SeqSpec", "SeqLink"], gen=[], slices=[("slices_values", "c12_seq")]),
  "C16": dict(needs=CORE + ["HeapFacts", "Refine1", "Refine2", "RunG", "Codec", "Bits", "Utf", "Utf16", "StrCodec"], gen=[], slices=[("slices_values", "c16_codecs")]),
  "C17": dict(needs=CORE + ["HeapFacts", "Refine1", "Refine2", "RunG", "Codec", "Bits", "LinkBits", "Float", "RoundProofs", "RoundLink"], gen=["GenBitwise"], slices=[("slices_values", "c17_bits")]),
  "C18": dict(needs=CORE + ["FloatText", "FloatTextProofs", "RealText", "PrintSeq", "PrintInt", "PrintDict", "HeapFacts", "Refine1", "Refine2", "RunG", "Pure", "IOSpec", "Cli"], gen=[], slices=[("slices_values", "c18_print"), ("slices_values", "c18_cli")]),
